@@ -137,6 +137,7 @@ package slip
 //@   on-call Unlock registered: !(old(has(obj.lambdas, name)) && old(obj.lambdas[name]) != nil) ==> (has(obj.lambdas, name) && obj.lambdas[name] == lam)
 //@   on-call Unlock funcinfo: has(obj.funcs, name) && obj.funcs[name] != nil && obj.funcs[name].Doc == lam.Doc && obj.funcs[name].Pkg == obj && obj.funcs[name].Kind == kind
 //@   on-call Unlock export-needs-exported-placeholder: (!(old(has(obj.funcs, name)) && old(obj.funcs[name]) != nil) && obj.funcs[name].Export) ==> (old(has(obj.vars, name)) && old(obj.vars[name]) != nil && old(obj.vars[name].Export))
+//@   on-call Unlock newly-exported-reaches-the-users: (!(old(has(obj.funcs, name)) && old(obj.funcs[name]) != nil) && obj.funcs[name].Export) ==> (forall j :: (0 <= j && j < len(obj.Users)) ==> obj.Users[j].funcs[name] != nil)
 //@   on-call Unlock other-lambdas-kept: forall n :: n != name ==> (has(obj.lambdas, n) == old(has(obj.lambdas, n)) && obj.lambdas[n] == old(obj.lambdas[n]))
 //@   on-call Unlock other-funcs-kept: forall n :: n != name ==> (has(obj.funcs, n) == old(has(obj.funcs, n)) && obj.funcs[n] == old(obj.funcs[n]))
 
